@@ -10,6 +10,8 @@ import (
 	"github.com/syndtr/goleveldb/leveldb/storage"
 )
 
+func zzUKey1() []byte { return []byte{vpNondetU8()} }
+
 func zzNumFile(num int64, lo, hi []byte) *tFile {
 	f := zzFile(num, lo, hi)
 	f.fd = storage.FileDesc{Type: storage.TypeTable, Num: num}
@@ -25,14 +27,14 @@ func zzStaging(which int, trivial bool) {
 	n0 := vpChoose(3)
 	var l0 tFiles
 	for i := 0; i < n0; i++ {
-		lo, hi := zzUKey(), zzUKey()
+		lo, hi := zzUKey1(), zzUKey1()
 		vpAssume(icmp.uCompare(lo, hi) <= 0)
 		l0 = append(l0, zzNumFile(int64(20-i), lo, hi))
 	}
 	n1 := vpChoose(zzFiles + 1)
 	var l1 tFiles
 	for i := 0; i < n1; i++ {
-		lo, hi := zzUKey(), zzUKey()
+		lo, hi := zzUKey1(), zzUKey1()
 		vpAssume(icmp.uCompare(lo, hi) <= 0)
 		if i > 0 {
 			vpAssume(icmp.uCompare(l1[i-1].imax.ukey(), lo) < 0)
@@ -66,7 +68,7 @@ func zzStaging(which int, trivial bool) {
 	na := vpChoose(3)
 	var add1 tFiles
 	for i := 0; i < na; i++ {
-		lo, hi := zzUKey(), zzUKey()
+		lo, hi := zzUKey1(), zzUKey1()
 		vpAssume(icmp.uCompare(lo, hi) <= 0)
 		if i > 0 {
 			vpAssume(icmp.uCompare(add1[i-1].imax.ukey(), lo) < 0)
@@ -95,7 +97,7 @@ func zzStaging(which int, trivial bool) {
 	// optionally a new level-0 file (memtable flush): newest file number
 	add0 := vpChoose(2) == 1
 	if add0 {
-		lo, hi := zzUKey(), zzUKey()
+		lo, hi := zzUKey1(), zzUKey1()
 		vpAssume(icmp.uCompare(lo, hi) <= 0)
 		rec.addTableFile(0, zzNumFile(50, lo, hi))
 	}
